@@ -247,18 +247,20 @@ def constFalse (cs : List Con) : Bool := cs.any fun c => lastVar c.coeffs == 0 &
 
 def itvEq (I J : Itv) : Bool := (I.isEmpty && J.isEmpty) || (I == J)
 
-/-- `written` / `prefix` / `none`: does the model `boxWrap` give exactly the real result (`written`), or
-    only with the comparison `Interval::wrap_assign` had before the fix of defect 12 (`prefix`)? -/
+/-- does the model `boxWrap` give exactly the real result?  `written`: the model of the code with the
+    repairs; `kf10`: only the quadrant test before the repair of KF-C17-10 explains it; `prefix`: only the
+    interval comparison before the fix of defect 12 does; `none`: no variant does -/
 def ivCheck (dom : String) (n : Nat) (cfg : WrapCfg) (arg res : Dj) : String :=
   if constFalse arg.cs then "skip" else
   let B := (List.range n).map (unaryItv arg.cs)
   if B.any (·.isEmpty) then "skip" else
   let storeOpen := dom == "RB"
-  let agrees := fun (strictTest : Bool) =>
-    let M := boxWrap strictTest storeOpen cfg B
+  let agrees := fun (strictTest kf10 : Bool) =>
+    let M := boxWrap strictTest storeOpen kf10 cfg B
     if M.any (·.isEmpty) then constFalse res.cs || (List.range n).any fun x => (unaryItv res.cs x).isEmpty
     else !constFalse res.cs && (List.zipWith (fun x m => itvEq m (unaryItv res.cs x)) (List.range n) M).all id
-  if agrees false then "written" else if agrees true then "prefix" else "none"
+  if agrees false false then "written" else if agrees false true then "kf10"
+  else if agrees true false || agrees true true then "prefix" else "none"
 
 def judgeWrap (id : String) (dom : String) (n : Nat) (cfg : WrapCfg) (arg res : Elem) : String :=
   let vars := normVars cfg.vars
@@ -439,13 +441,15 @@ def parseOracle (ts : List String) : List (String × String) :=
 def judgeTrace (id : String) (n : Nat) (cfg : WrapCfg) (oracle : List String) (final : String) (same : Bool) : String :=
   let tab := parseOracle (oracle.drop 1)
   let d := traceDom n tab
-  let mw : String := wrapAssign d cfg ("I" : String)
-  let mf : String := wrapAssignFixed d cfg ("I" : String)
+  let mr : String := wrapAssign d cfg ("I" : String)
+  let mb : String := wrapAssignBeforeFix d cfg ("I" : String)
   let trips := wrapTrips d cfg ("I" : String)
+  -- `both`: the run does not distinguish the variants; `repaired` / `beforefix`: it does
   if !same then s!"DIVERGE {id} the template instantiated on the tracing PSET and C_Polyhedron::wrap_assign give different sets"
-  else if mw == final then s!"ok {id} trace=written trips={if trips then 1 else 0} queries={tab.length}"
-  else if mf == final then s!"ok {id} trace=repaired trips={if trips then 1 else 0} queries={tab.length}"
-  else s!"DIVERGE {id} model={mw} real={final}"
+  else if mr == final && mb == final then s!"ok {id} trace=both trips=0 queries={tab.length}"
+  else if mr == final then s!"ok {id} trace=repaired trips={if trips then 1 else 0} queries={tab.length}"
+  else if mb == final then s!"ok {id} trace=beforefix trips={if trips then 1 else 0} queries={tab.length}"
+  else s!"DIVERGE {id} model={mr} real={final}"
 
 /-! ### lines -/
 
